@@ -9,6 +9,7 @@ import (
 	"strconv"
 	"strings"
 	"time"
+	"unsafe"
 
 	"verifharness/core"
 )
@@ -22,6 +23,7 @@ type Canary struct {
 	Path   string // where it was planted
 	Depth  int
 	Pair   string // the two constructors above the secure field (for the distribution)
+	NoJSON bool   // planted in an ordinary unexported field: no encoder shows it (compared through the model only)
 }
 
 // Coq renders the canary as a SecureCheck.leaf.
@@ -104,9 +106,10 @@ func (t *Table) nameID(s string) uint64 {
 // ValGen fills values; one per case (canary numbering is per case).
 type ValGen struct {
 	r        *core.Rand
-	Canaries []*Canary
-	n        int
-	PNil     float64
+	Canaries  []*Canary
+	SecFields int // secure-tagged fields the scrubber can reach (whatever their kind)
+	n         int
+	PNil      float64
 }
 
 type vctx struct {
@@ -177,6 +180,7 @@ func (g *ValGen) Value(n *TNode, cx vctx) reflect.Value {
 			fx := cx.down(KStruct, "."+f.Name)
 			if f.Tag.hasSecure() && !cx.secret && !cx.shield {
 				fx.secret = true
+				g.SecFields++
 				fx.pair = pairName(cx.c1, cx.c2) // the two constructors above the struct holding the field
 			}
 			v.Field(i).Set(g.Value(f.Type, fx))
@@ -265,7 +269,7 @@ func parseTag(tag reflect.StructTag) TagKind {
 }
 
 func fmeta(t *Table, f reflect.StructField) string {
-	return fmt.Sprintf("{| f_name := %s; f_exported := %s; f_tag := %s |}", core.N(t.nameID(f.Name)), core.B(f.IsExported()), parseTag(f.Tag).Coq())
+	return fmt.Sprintf("{| f_name := %s; f_exported := %s; f_embedded := %s; f_tag := %s |}", core.N(t.nameID(f.Name)), core.B(f.IsExported()), core.B(f.Anonymous), parseTag(f.Tag).Coq())
 }
 
 func optTerm(ctor string, inner string, isNil bool) string {
@@ -290,7 +294,15 @@ func Abstract(t *Table, v reflect.Value) string {
 		return core.App("VBool", core.B(v.Bool()))
 	case reflect.Struct:
 		if v.Type() == timeType {
-			tm := v.Interface().(time.Time)
+			var tm time.Time
+			switch {
+			case v.CanInterface():
+				tm = v.Interface().(time.Time)
+			case v.CanAddr(): // read-only handle (reached through an unexported field): read through its address
+				tm = *(*time.Time)(unsafe.Pointer(v.UnsafeAddr()))
+			default:
+				return "(VTime 424242%Z)"
+			}
 			if tm.IsZero() {
 				return "(VTime 0%Z)"
 			}
